@@ -20,6 +20,8 @@ import TdVerif.Lemmas.C02Meta
 import TdVerif.Lemmas.C02Tree
 import TdVerif.Lemmas.C02Expand
 import TdVerif.Lemmas.C02Cat
+import TdVerif.Gen.C02Src
+import TdVerif.Model.C02Pins
 
 namespace TdVerif.Props.C02
 open TdVerif.C02
@@ -395,6 +397,13 @@ theorem view_leaf_validates (t : T α) (n : Nat) (sh : Shape) (hn : n ≤ t.rank
     obtain ⟨t', h1, _⟩ := view_leaf_commutes t n sh hn hp
     rw [h1]; simp [torchShapeOf]
 
+/-! ## the model is a transcription of THIS source -/
+
+/-- every function `Model/C02Td.lean` transcribes (file:function → AST hash, regenerated from the working tree on every run) is the source
+the model was transcribed from and validated against: an edit of `_transpose`, `_stack`, `masked_select`, … breaks this obligation even
+when no sampled input behaves differently -/
+theorem transcribed_sources_unchanged : Gen.c02Sources = c02Pinned := by decide +kernel
+
 /-! ## the batch size computed by the code is the shape torch gives; the code rejects iff torch rejects -/
 
 theorem unsqueeze_batch_eq_torch (d : Int) (bs : Shape) (names : Names) :
@@ -738,8 +747,15 @@ theorem keys_preserved_all :
     split at h
     · cases h
     · cases h; simp [keyTree]
-  · intro call bs names es ih e' h
-    simp only [applyEntry] at h
+  · intro bs names es ds shape n bs1 ih e' h
+    rw [applyEntry_node_squeezeDims] at h
+    split at h
+    · cases h
+    · rename_i es' hes
+      cases h
+      simp [keyTree, ih es' hes]
+  · intro call bs names es hns ih e' h
+    rw [applyEntry_node_other call bs names es hns] at h
     rw [ih e' h]; simp [keyTree]
 
 
@@ -1353,14 +1369,17 @@ theorem shape_op_coherent_all :
     intro call t bs bs' g hp _
     obtain ⟨t', h1, h2⟩ := goodCall_leaf call bs bs' g t hp
     exact ⟨.leaf t', by simp [applyEntry, h1, Except.map], h2, by simp [Coherent]⟩
+  · -- applyEntry node, squeeze() chain: not a `GoodCall` (squeeze() on whole trees rests on the correspondence streams td:valid / td:chain)
+    intro bs2 names2 es2 ds shape n _ _ bs bs' g _ _
+    cases g
   · -- applyEntry node
-    intro call bs2 names2 es2 ih bs bs' g hp hc
+    intro call bs2 names2 es2 hns ih bs bs' g hp hc
     simp only [PrefixOK] at hp
     obtain ⟨ext, rfl⟩ := prefix_split bs bs2 hp
     obtain ⟨nm3, call2, hm, g2⟩ := goodCall_nested call bs bs' g ext names2
     simp only [Coherent] at hc
     obtain ⟨nm, es', hr, hc'⟩ := ih (bs' ++ ext) nm3 call2 hm g2 (goodCall_not_unflatten call bs bs' g _) hc
-    refine ⟨.node (bs' ++ ext) nm es', by simp only [applyEntry]; exact hr, ?_, ?_⟩
+    refine ⟨.node (bs' ++ ext) nm es', by rw [applyEntry_node_other call _ _ _ hns]; exact hr, ?_, ?_⟩
     · simp [PrefixOK]
     · simp only [Coherent]; exact hc'
 
@@ -1439,6 +1458,375 @@ theorem stack_leaf_commutes [Inhabited α] (ts : List (T α)) (s : Shape) (n dim
         simp [List.getD_eq_getElem?_getD, List.getElem?_append_left (show dim < c.length by omega)]
       have e2 : (c ++ f).eraseIdx dim = c.eraseIdx dim ++ f := List.eraseIdx_append_of_lt_length (by omega) f
       rw [e1, e2, hti]; rfl
+
+
+/-! ## whole trees: gather / masked_select / stack -/
+
+/-- masked_select on a whole coherent tree: when the call is accepted, every entry of the result — tensor leaves and nested
+tensordicts, at every depth — carries the new batch size `[count] ++ bs.drop k` as a prefix (feature dims / deeper batch dims untouched) -/
+theorem masked_select_coherent_all (mask : T Bool) :
+    (∀ (bs : Shape) (names : Names) (es : List (String × TD α)), CoherentList bs es →
+        ∀ r, mselNode mask bs names es = .ok r →
+          ∃ nm es', r = .node ((T.maskSel mask).length :: bs.drop mask.shape.length) nm es' ∧
+            CoherentList ((T.maskSel mask).length :: bs.drop mask.shape.length) es') ∧
+    (∀ (es : List (String × TD α)), ∀ bs, mask.shape.length ≤ bs.length → CoherentList bs es →
+        ∀ es', mselEntries mask es = .ok es' → CoherentList ((T.maskSel mask).length :: bs.drop mask.shape.length) es') ∧
+    (∀ (e : TD α), ∀ bs, mask.shape.length ≤ bs.length → PrefixOK bs e → Coherent e →
+        ∀ e', mselEntry mask e = .ok e' → PrefixOK ((T.maskSel mask).length :: bs.drop mask.shape.length) e' ∧ Coherent e') := by
+  apply mselNode.mutual_induct (α := α) mask
+    (motive1 := fun bs names es => CoherentList bs es →
+        ∀ r, mselNode mask bs names es = .ok r →
+          ∃ nm es', r = .node ((T.maskSel mask).length :: bs.drop mask.shape.length) nm es' ∧
+            CoherentList ((T.maskSel mask).length :: bs.drop mask.shape.length) es')
+    (motive2 := fun es => ∀ bs, mask.shape.length ≤ bs.length → CoherentList bs es →
+        ∀ es', mselEntries mask es = .ok es' → CoherentList ((T.maskSel mask).length :: bs.drop mask.shape.length) es')
+    (motive3 := fun e => ∀ bs, mask.shape.length ≤ bs.length → PrefixOK bs e → Coherent e →
+        ∀ e', mselEntry mask e = .ok e' → PrefixOK ((T.maskSel mask).length :: bs.drop mask.shape.length) e' ∧ Coherent e')
+  · intro bs names es h1 _ r h; unfold mselNode at h; simp [h1] at h
+  · intro bs names es h1 h2 _ r h; unfold mselNode at h; simp [h1, h2] at h
+  · intro bs names es h1 h2 e he _ _ r h; unfold mselNode at h; simp [h1, h2, he] at h
+  · intro bs names es h1 h2 es' he ih hc r h
+    unfold mselNode at h
+    simp only [h1, h2, he, if_false] at h
+    simp only [Except.ok.injEq] at h
+    exact ⟨_, es', h.symm, ih bs (by omega) hc es' he⟩
+  · intro bs _ _ es' h; simp [mselEntries] at h; subst h; simp [CoherentList]
+  · intro k e rest err he _ bs _ _ es' h; unfold mselEntries at h; simp [he] at h
+  · intro k e rest e' he e1 hr _ _ bs _ _ es' h; unfold mselEntries at h; simp [he, hr] at h
+  · intro k e rest e' he es'' hr ih3 ih2 bs hk hc es' h
+    unfold mselEntries at h
+    simp only [he, hr, Except.ok.injEq] at h
+    subst h
+    simp only [CoherentList] at hc ⊢
+    obtain ⟨hp, hce⟩ := ih3 bs hk hc.1 hc.2.1 e' he
+    exact ⟨hp, hce, ih2 bs hk hc.2.2 es'' hr⟩
+  · intro t ht bs _ _ _ e' h; unfold mselEntry at h; simp [ht] at h
+  · intro t ht bs hk hp _ e' h
+    unfold mselEntry at h
+    simp only [ht, if_false, Except.ok.injEq] at h
+    subst h
+    refine ⟨?_, by simp [Coherent]⟩
+    simp only [PrefixOK, T.maskedSelect] at hp ⊢
+    simp only [List.length_cons, List.length_drop]
+    rw [show bs.length - mask.shape.length + 1 = (bs.length - mask.shape.length) + 1 from rfl, List.take_succ_cons,
+      take_drop_comm _ _ _ hk, hp]
+  · intro bs2 nm2 es2 ht bs _ _ _ e' h; unfold mselEntry at h; simp [ht] at h
+  · intro bs2 nm2 es2 ht ih bs hk hp hc e' h
+    unfold mselEntry at h
+    simp only [ht, if_false] at h
+    simp only [Coherent] at hc
+    obtain ⟨nm, es', hr, hc'⟩ := ih hc e' h
+    subst hr
+    refine ⟨?_, by simpa [Coherent] using hc'⟩
+    simp only [PrefixOK] at hp ⊢
+    simp only [List.length_cons, List.length_drop]
+    rw [show bs.length - mask.shape.length + 1 = (bs.length - mask.shape.length) + 1 from rfl, List.take_succ_cons,
+      take_drop_comm _ _ _ hk, hp]
+
+
+/-- gather on a whole coherent tree (index of the batch rank): when the call is accepted every entry of the result, at every depth,
+carries the new batch size — the index's shape — as a prefix -/
+theorem gather_coherent_all :
+    (∀ (d : Int) (index : T Nat) (bs : Shape) (names : Names) (es : List (String × TD α)),
+        index.shape.length = bs.length → CoherentList bs es → ∀ r, gatherNode d index bs names es = .ok r →
+          ∃ nm es', r = .node index.shape nm es' ∧ CoherentList index.shape es') ∧
+    (∀ (dim : Nat) (index : T Nat) (es : List (String × TD α)), ∀ bs, dim < bs.length →
+        index.shape = bs.set dim (index.shape.getD dim 0) → CoherentList bs es →
+        ∀ es', gatherEntries dim index es = .ok es' → CoherentList index.shape es') ∧
+    (∀ (dim : Nat) (index : T Nat) (e : TD α), ∀ bs, dim < bs.length →
+        index.shape = bs.set dim (index.shape.getD dim 0) → PrefixOK bs e → Coherent e →
+        ∀ e', gatherEntry dim index e = .ok e' → PrefixOK index.shape e' ∧ Coherent e') := by
+  apply gatherNode.mutual_induct (α := α)
+    (motive1 := fun d index bs names es => index.shape.length = bs.length → CoherentList bs es →
+        ∀ r, gatherNode d index bs names es = .ok r → ∃ nm es', r = .node index.shape nm es' ∧ CoherentList index.shape es')
+    (motive2 := fun dim index es => ∀ bs, dim < bs.length →
+        index.shape = bs.set dim (index.shape.getD dim 0) → CoherentList bs es →
+        ∀ es', gatherEntries dim index es = .ok es' → CoherentList index.shape es')
+    (motive3 := fun dim index e => ∀ bs, dim < bs.length →
+        index.shape = bs.set dim (index.shape.getD dim 0) → PrefixOK bs e → Coherent e →
+        ∀ e', gatherEntry dim index e = .ok e' → PrefixOK index.shape e' ∧ Coherent e')
+  · intro d index bs names es hs _ _ r h; unfold gatherNode at h; simp [hs] at h
+  · intro d index bs names es tail hs _ _ r h; unfold gatherNode at h; simp [hs] at h
+  · intro d index bs names es s0 tail hs h0 dim hd _ _ r h
+    unfold gatherNode at h; simp only [hs, h0, if_false] at h
+    have hh : (if d < 0 then (bs.length : Int) + d else d) = dim := by simp [dim]
+    rw [hh] at h
+    rw [if_pos hd] at h; cases h
+  · intro d index bs names es s0 tail hs h0 dim hd hany _ _ r h
+    unfold gatherNode at h; simp only [hs, h0, if_false] at h
+    have hh : (if d < 0 then (bs.length : Int) + d else d) = dim := by simp [dim]
+    rw [hh] at h
+    rw [if_neg hd] at h
+    rw [hs] at hany
+    rw [if_pos hany] at h; cases h
+  · intro d index bs names es s0 tail hs h0 dim hd hany e he _ _ _ r h
+    unfold gatherNode at h; simp only [hs, h0, if_false] at h
+    have hh : (if d < 0 then (bs.length : Int) + d else d) = dim := by simp [dim]
+    rw [hh] at h
+    rw [if_neg hd] at h
+    rw [hs] at hany
+    rw [if_neg hany] at h
+    simp only [he] at h; cases h
+  · intro d index bs names es s0 tail hs h0 dim hd hany es' he ih hl hc r h
+    unfold gatherNode at h; simp only [hs, h0, if_false] at h
+    have hh : (if d < 0 then (bs.length : Int) + d else d) = dim := by simp [dim]
+    rw [hh] at h
+    rw [if_neg hd] at h
+    have hany' := hany
+    rw [hs] at hany'
+    rw [if_neg hany'] at h
+    simp only [he, Except.ok.injEq] at h
+    have hdl : dim.toNat < bs.length := by
+      have : ¬ (dim > (bs.length : Int) - 1 ∨ dim < 0) := hd
+      omega
+    have hshape := index_shape_of_check index.shape bs dim.toNat hl hany
+    refine ⟨(if (s0 :: tail).length = bs.length then normNames names else none), es', ?_, ih bs hdl hshape hc es' he⟩
+    rw [← h, hs]
+  · intro dim index bs _ _ _ es' h; simp [gatherEntries] at h; subst h; simp [CoherentList]
+  · intro dim index k e rest err he _ bs _ _ _ es' h; unfold gatherEntries at h; simp [he] at h
+  · intro dim index k e rest e' he e1 hr _ _ bs _ _ _ es' h; unfold gatherEntries at h; simp [he, hr] at h
+  · intro dim index k e rest e' he es'' hr ih3 ih2 bs hd hsh hc es' h
+    unfold gatherEntries at h
+    simp only [he, hr, Except.ok.injEq] at h
+    subst h
+    simp only [CoherentList] at hc ⊢
+    obtain ⟨hp, hce⟩ := ih3 bs hd hsh hc.1 hc.2.1 e' he
+    exact ⟨hp, hce, ih2 bs hd hsh hc.2.2 es'' hr⟩
+  · intro dim index t ht bs _ _ _ _ e' h; unfold gatherEntry at h; simp [ht] at h
+  · intro dim index t ht a ha bs _ _ _ _ e' h; unfold gatherEntry at h; simp [ht, ha] at h
+  · intro dim index t ht t1 hg bs hd hsh hp _ e' h
+    unfold gatherEntry at h
+    simp only [ht, if_false, hg, Except.ok.injEq] at h
+    subst h
+    refine ⟨?_, by simp [Coherent]⟩
+    -- the result has the expanded index's shape
+    have hsh1 : t1.shape = (indexExpand index t.shape dim).shape := by
+      unfold Torch.gather at hg
+      repeat' split at hg
+      all_goals first | (cases hg; done) | (simp only [Except.ok.injEq] at hg; rw [← hg]; rfl)
+    simp only [PrefixOK] at hp ⊢
+    rw [hsh1]
+    simp only [indexExpand]
+    have hil : index.shape.length = bs.length := by rw [hsh]; simp
+    rw [hil, List.take_set, hp]; exact hsh.symm
+  · intro dim index bs2 nm2 es2 ht bs _ _ _ _ e' h; unfold gatherEntry at h; simp [ht] at h
+  · intro dim index bs2 nm2 es2 ht ih bs hd hsh hp hc e' h
+    unfold gatherEntry at h
+    simp only [ht, if_false] at h
+    simp only [Coherent] at hc
+    obtain ⟨nm, es', hr, hc'⟩ := ih (by simp [indexExpand]) hc e' h
+    subst hr
+    refine ⟨?_, by simpa [Coherent] using hc'⟩
+    simp only [PrefixOK] at hp ⊢
+    simp only [indexExpand]
+    have hil : index.shape.length = bs.length := by rw [hsh]; simp
+    rw [hil, List.take_set, hp]; exact hsh.symm
+
+
+mutual
+/-- torch.stack on whole coherent trees (proved by the same mutual recursion as `stackLevel` / `stackEntries` / `stackEntry`): when the call is
+accepted, every entry of the result, at every depth, carries the new batch size `bs.insertIdx dim k` as a prefix — tensor leaves are the
+stack of the operands' leaves, nested tensordicts are stacked by the same function -/
+theorem stackLevel_coh [Inhabited α] (dim : Nat) (bs : Shape) (names : Names) (first : List (String × TD α))
+    (others : List (Shape × List (String × TD α))) (hc : CoherentList bs first) (r : TD α)
+    (h : stackLevel dim bs names first others = .ok r) :
+    ∃ nm es', r = .node (bs.insertIdx dim (others.length + 1)) nm es' ∧
+      CoherentList (bs.insertIdx dim (others.length + 1)) es' := by
+  unfold stackLevel at h
+  by_cases h1 : dim > bs.length
+  · rw [if_pos h1] at h; cases h
+  rw [if_neg h1] at h
+  by_cases h2 : others.any (fun o => o.1 ≠ bs) = true
+  · rw [if_pos h2] at h; cases h
+  rw [if_neg h2] at h
+  by_cases h3 : ¬ sameKeySets first (others.map (·.2)) = true
+  · rw [if_pos h3] at h; cases h
+  rw [if_neg h3] at h
+  cases he : stackEntries dim first (others.map (·.2)) with
+  | error e => simp [he] at h
+  | ok es' =>
+    simp only [he, Except.ok.injEq] at h
+    have hfound : ∀ k ∈ first.map (·.1), ((others.map (·.2)).filterMap (lookupEntry k)).length = (others.map (·.2)).length :=
+      fun k hk => filterMap_lookup_length first _ (by simpa using h3) k hk
+    have := stackEntries_coh dim first (others.map (·.2)) bs (by omega) hc hfound es' he
+    simp only [List.length_map] at this
+    exact ⟨_, es', h.symm, this⟩
+termination_by (sizeOf first, 1)
+
+theorem stackEntries_coh [Inhabited α] (dim : Nat) (es : List (String × TD α)) (others : List (List (String × TD α)))
+    (bs : Shape) (hd : dim ≤ bs.length) (hc : CoherentList bs es)
+    (hfound : ∀ k ∈ es.map (·.1), (others.filterMap (lookupEntry k)).length = others.length)
+    (es' : List (String × TD α)) (h : stackEntries dim es others = .ok es') :
+    CoherentList (bs.insertIdx dim (others.length + 1)) es' := by
+  match es with
+  | [] => simp [stackEntries] at h; subst h; simp [CoherentList]
+  | (k, e) :: rest =>
+    unfold stackEntries at h
+    cases he : stackEntry dim e (others.filterMap (lookupEntry k)) with
+    | error err => simp [he] at h
+    | ok e' =>
+      cases hr : stackEntries dim rest others with
+      | error err => simp [he, hr] at h
+      | ok rest' =>
+        simp only [he, hr, Except.ok.injEq] at h
+        subst h
+        simp only [CoherentList] at hc ⊢
+        have hl := hfound k (by simp)
+        obtain ⟨hp, hce⟩ := stackEntry_coh dim e (others.filterMap (lookupEntry k)) bs hd hc.1 hc.2.1 e' he
+        rw [hl] at hp
+        exact ⟨hp, hce, stackEntries_coh dim rest others bs hd hc.2.2 (fun k' hk' => hfound k' (by simp [hk'])) rest' hr⟩
+termination_by (sizeOf es, 0)
+
+theorem stackEntry_coh [Inhabited α] (dim : Nat) (e : TD α) (vals : List (TD α)) (bs : Shape) (hd : dim ≤ bs.length)
+    (hp : PrefixOK bs e) (hc : Coherent e) (e' : TD α) (h : stackEntry dim e vals = .ok e') :
+    PrefixOK (bs.insertIdx dim (vals.length + 1)) e' ∧ Coherent e' := by
+  match e with
+  | .leaf t =>
+    unfold stackEntry at h
+    cases hm : vals.mapM asLeaf with
+    | none => simp [hm] at h
+    | some ts =>
+      simp only [hm] at h
+      by_cases ha : ts.any (fun u => u.shape ≠ t.shape) = true
+      · rw [if_pos ha] at h; cases h
+      rw [if_neg ha] at h
+      simp only [Except.ok.injEq] at h
+      subst h
+      refine ⟨?_, by simp [Coherent]⟩
+      have htl := mapM_asLeaf_shapes vals ts hm
+      simp only [PrefixOK] at hp ⊢
+      have hn : bs.length ≤ t.shape.length := by
+        have := congrArg List.length hp; simp at this; omega
+      have hlen : (bs.insertIdx dim (vals.length + 1)).length = bs.length + 1 := List.length_insertIdx_of_le_length hd _
+      simp only [T.stack, List.head?_cons, Option.map_some, Option.getD_some, List.length_cons, htl]
+      rw [hlen, insertIdx_take _ _ _ _ hd hn, hp]
+  | .node bs2 nm2 es2 =>
+    unfold stackEntry at h
+    split at h
+    · cases h
+    · rename_i os hm
+      simp only [Coherent] at hc
+      obtain ⟨nm, es', hr, hc'⟩ := stackLevel_coh dim bs2 nm2 es2 os hc e' h
+      subst hr
+      have hol := length_mapM_option _ _ _ hm
+      refine ⟨?_, by simpa [Coherent] using hc'⟩
+      simp only [PrefixOK] at hp ⊢
+      have hn : bs.length ≤ bs2.length := by
+        have := congrArg List.length hp; simp at this; omega
+      have hlen : (bs.insertIdx dim (vals.length + 1)).length = bs.length + 1 := List.length_insertIdx_of_le_length hd _
+      rw [hlen, hol, insertIdx_take _ _ _ _ hd hn, hp]
+termination_by (sizeOf e, 0)
+end
+
+
+mutual
+/-- torch.cat on whole coherent trees (same mutual recursion as `catLevel` / `catEntries` / `catEntry`): when the call is accepted and the
+operands are coherent, every entry of the result, at every depth, carries the new batch size (`bs` with the sizes along `dim` added up) as a
+prefix — the leaves found in the operands have, along `dim`, exactly the operands' batch sizes, so leaf sizes and batch size add up alike -/
+theorem catLevel_coh [Inhabited α] (d : Int) (bs : Shape) (names : Names) (first : List (String × TD α))
+    (others : List (Shape × List (String × TD α))) (hc : CoherentList bs first)
+    (ho : OpsOK (others.map (·.1)) (others.map (·.2))) (r : TD α) (h : catLevel d bs names first others = .ok r) :
+    ∃ i nm es', normDim bs.length d = some i ∧
+      r = .node (bs.set i (bs.getD i 0 + (others.map (fun o => o.1.getD i 0)).sum)) nm es' ∧
+      CoherentList (bs.set i (bs.getD i 0 + (others.map (fun o => o.1.getD i 0)).sum)) es' := by
+  unfold catLevel at h
+  simp only [] at h
+  generalize hdim : (if d < 0 then (bs.length : Int) + d else d) = dim at h
+  by_cases h1 : dim < 0 ∨ dim ≥ bs.length
+  · rw [if_pos h1] at h; cases h
+  rw [if_neg h1] at h
+  by_cases h2 : others.any (fun o => o.1.length ≤ dim.toNat) = true
+  · rw [if_pos h2] at h; cases h
+  rw [if_neg h2] at h
+  by_cases h3 : ¬ sameKeySets first (others.map (·.2)) = true
+  · rw [if_pos h3] at h; cases h
+  rw [if_neg h3] at h
+  cases he : catEntries dim.toNat first (others.map (·.2)) with
+  | error e => simp [he] at h
+  | ok es' =>
+    simp only [he, Except.ok.injEq] at h
+    have hdl : dim.toNat < bs.length := by omega
+    have hfound : ∀ k ∈ first.map (·.1), ((others.map (·.2)).filterMap (lookupEntry k)).length = (others.map (·.2)).length :=
+      fun k hk => filterMap_lookup_length first _ (by simpa using h3) k hk
+    have hdims : ∀ b ∈ others.map (·.1), dim.toNat < b.length := by
+      intro b hb
+      obtain ⟨o, hoo, rfl⟩ := List.mem_map.1 hb
+      simp only [List.any_eq_true, decide_eq_true_eq, not_exists, not_and] at h2
+      have := h2 o hoo; omega
+    have := catEntries_coh dim.toNat first (others.map (·.2)) bs (others.map (·.1)) hdl hc ho hdims hfound es' he
+    simp only [List.map_map, Function.comp_def] at this
+    refine ⟨dim.toNat, names, es', ?_, h.symm, this⟩
+    unfold normDim; grind
+termination_by (sizeOf first, 1)
+
+theorem catEntries_coh [Inhabited α] (dim : Nat) (es : List (String × TD α)) (others : List (List (String × TD α)))
+    (bs : Shape) (obs : List Shape) (hd : dim < bs.length) (hc : CoherentList bs es) (hops : OpsOK obs others)
+    (hdims : ∀ b ∈ obs, dim < b.length)
+    (hfound : ∀ k ∈ es.map (·.1), (others.filterMap (lookupEntry k)).length = others.length)
+    (es' : List (String × TD α)) (h : catEntries dim es others = .ok es') :
+    CoherentList (bs.set dim (bs.getD dim 0 + (obs.map (·.getD dim 0)).sum)) es' := by
+  match es with
+  | [] => simp [catEntries] at h; subst h; simp [CoherentList]
+  | (k, e) :: rest =>
+    unfold catEntries at h
+    cases he : catEntry dim e (others.filterMap (lookupEntry k)) with
+    | error err => simp [he] at h
+    | ok e' =>
+      cases hr : catEntries dim rest others with
+      | error err => simp [he, hr] at h
+      | ok rest' =>
+        simp only [he, hr, Except.ok.injEq] at h
+        subst h
+        simp only [CoherentList] at hc ⊢
+        have hv := filterMap_lookup_vals k dim others obs hops hdims (hfound k (by simp))
+        obtain ⟨hp, hce⟩ := catEntry_coh dim e (others.filterMap (lookupEntry k)) bs obs hd hc.1 hc.2.1 hv e' he
+        exact ⟨hp, hce, catEntries_coh dim rest others bs obs hd hc.2.2 hops hdims (fun k' hk' => hfound k' (by simp [hk'])) rest' hr⟩
+termination_by (sizeOf es, 0)
+
+theorem catEntry_coh [Inhabited α] (dim : Nat) (e : TD α) (vals : List (TD α)) (bs : Shape) (obs : List Shape)
+    (hd : dim < bs.length) (hp : PrefixOK bs e) (hc : Coherent e) (hv : ValsOK dim obs vals) (e' : TD α)
+    (h : catEntry dim e vals = .ok e') :
+    PrefixOK (bs.set dim (bs.getD dim 0 + (obs.map (·.getD dim 0)).sum)) e' ∧ Coherent e' := by
+  match e with
+  | .leaf t =>
+    unfold catEntry at h
+    cases hm : vals.mapM asLeaf with
+    | none => simp [hm] at h
+    | some ts =>
+      simp only [hm] at h
+      split at h
+      · cases h
+      · simp only [Except.ok.injEq] at h
+        subst h
+        refine ⟨?_, by simp [Coherent]⟩
+        simp only [PrefixOK] at hp ⊢
+        have hsum := leaf_sizes_sum dim vals ts obs hm hv
+        have hg := getD_of_take hp hd
+        simp only [T.cat, List.head?_cons, Option.map_some, Option.getD_some, List.map_cons, List.sum_cons, List.length_set]
+        rw [List.take_set, hp, hsum, hg]
+  | .node bs2 nm2 es2 =>
+    unfold catEntry at h
+    split at h
+    · cases h
+    · rename_i os hm
+      have hm' : vals.mapM nodeView = some os := by
+        rw [← hm]; congr 1
+      obtain ⟨hs, hops, hdims⟩ := nested_sizes_sum dim vals os obs hm' hv
+      simp only [Coherent] at hc
+      obtain ⟨i, nm, es', hi, hr, hc'⟩ := catLevel_coh (dim : Int) bs2 nm2 es2 os hc hops e' h
+      simp only [PrefixOK] at hp ⊢
+      have hn : bs.length ≤ bs2.length := by have := congrArg List.length hp; simp at this; omega
+      have hii : i = dim := by
+        have := normDim_ofNat (show dim < bs2.length by omega)
+        rw [this] at hi; exact (Option.some.inj hi).symm
+      subst hii
+      subst hr
+      refine ⟨?_, by simpa [Coherent] using hc'⟩
+      have hg := getD_of_take hp hd
+      simp only [List.length_set]
+      rw [List.take_set, hp, hs, hg]
+termination_by (sizeOf e, 0)
+end
 
 
 /-! ## non-vacuity: the hypotheses are satisfiable by concrete, non-trivial values, and the models compute -/
